@@ -363,6 +363,23 @@ def bounded(ctx):
         check(soc, outdir, {"APP_LOCAL_2": f}, 0x0E1ED000, case)
     except Exception as e:  # noqa: BLE001
         B.fail("kconfig-assignment-applies", case, f"{type(e).__name__}: {e}")
+    # a build-configuration assignment for a pair that ALSO has a default role: the configured role applies (exactly the named pair)
+    for soc2 in ("nrf54h20", "nrf9280"):
+        dc = DEFAULT_CLASSES[soc2]
+        for role, cls_role in (("APP_LOCAL_2", "APP_LOCAL_1"), ("RAD_LOCAL_2", "RAD_LOCAL_1"), ("APP_LOCAL_1", "RAD_LOCAL_1")):
+            if role not in LAYOUT[soc2]:
+                continue
+            cfg2 = f"{d}/kconfig_{soc2}_{role}"
+            open(cfg2, "w").write(f'SB_CONFIG_SUIT_MPI_{role}_VENDOR_NAME="nordicsemi.com"\nSB_CONFIG_SUIT_MPI_{role}_CLASS_NAME="{dc[cls_role]}"\n')
+            f2 = make("nordicsemi.com", dc[cls_role], f"reassigned_{soc2}_{role}")
+            case = {"kconfig": f"{role} -> nordicsemi.com/{dc[cls_role]} (default role {cls_role})", "soc": soc2}
+            B.case(("kconfig-over-default", soc2, role), sample=case)
+            try:
+                outdir = B.fresh_dir("out")
+                img.ImageCreator.create_files_for_boot([f2], outdir, 0x0E1ED000, cfg2, soc2)
+                check(soc2, outdir, {role: f2}, 0x0E1ED000, case)
+            except Exception as e:  # noqa: BLE001
+                B.fail("kconfig-assignment-applies-to-the-named-pair", case, f"{type(e).__name__}: {e}")
     return B.done()
 
 
